@@ -1,6 +1,7 @@
 """Parse tokens from the lexer into nodes for the compiler."""
 
 import typing
+import unicodedata
 import typing as t
 
 from . import nodes
@@ -408,6 +409,15 @@ class Parser:
                 self.stream.expect("comma")
             arg = self.parse_assign_target(name_only=True)
             arg.set_ctx("param")
+
+            # Python compares identifiers in NFKC normal form
+            if any(
+                unicodedata.normalize("NFKC", a.name)
+                == unicodedata.normalize("NFKC", arg.name)
+                for a in args
+            ):
+                self.fail(f"duplicate argument {arg.name!r}", arg.lineno)
+
             if self.stream.skip_if("assign"):
                 defaults.append(self.parse_expression())
             elif defaults:
